@@ -13,7 +13,7 @@ EXHAUSTIVE_NOTE = {"quick": "all CER segment-length vectors over {0,1,999,1000,1
 ASSUMPTIONS = []
 
 def has_spec(r):
-    return r.startswith("os.views")
+    return r.startswith("os.views") or r.startswith("oss.calls")
 def model_is_demanded(r):
     return True
 
@@ -98,6 +98,18 @@ def gen(tier, rng):
     for (_m, _d, _sc) in _scripts.truncated_leaves([0x04]):
         for _src in ("slice", "stingy"):
             out.append("run %s %s %s %s" % (_m, _src, hx(_d), _sc))
+    # the octet string as a source, call by call, including the provided methods take_opt_u8 / skip as the
+    # source implements them (added after seeded change C16-7: an override of take_u8 / take_opt_u8 that stops
+    # at an empty segment is invisible to request / slice / advance)
+    for form in ("2480040261620400040163" "0000", "240b0402616204000401630400", "2480040004000401610000",
+                 "24800400240404000400040162" "0000", "0403616263", "0400", "2400", "24800000"):
+        for calls in ("u u u u u", "r1 a1 u u u", "k1 u k1 u", "u k5 u", "r2 a2 u u", "r100 a100 u", "k0 u k100 u"):
+            out.append("oss.calls ber %s %s" % (form, calls))
+    for _ in range(600 if tier == "quick" else 6000):
+        data = bytes(rng.randrange(256) for _ in range(rng.choice([0, 1, 2, 3, 5, 9])))
+        form = rand_os_form(rng, data)
+        calls = [rng.choice(["u", "u", "r1", "r2", "r5", "a1", "a2", "k1", "k3", "k100"]) for _ in range(rng.randrange(1, 9))]
+        out.append("oss.calls ber %s %s" % (hx(form), " ".join(calls)))
     return out
 
 SRC = {}
